@@ -19,6 +19,7 @@ use radicle::identity::doc::{Doc, RawDoc, Visibility};
 use radicle::identity::project::Project;
 use radicle::identity::{Did, RepoId};
 use radicle::node::address::Store as _;
+use radicle::node::routing::Store as _;
 use radicle::node::config::PeerConfig;
 use radicle::node::device::Device;
 use radicle::node::{Alias, Features, UserAgent};
@@ -186,13 +187,13 @@ impl World {
         let a = self.next_aid;
         self.next_aid += 1;
         self.aids.insert(key, a);
-        let (kind, repo, repos) = match &ann.message {
-            AnnouncementMessage::Node(_) => ("node", 0, vec![]),
-            AnnouncementMessage::Inventory(inv) => ("inv", 0, inv.inventory.iter().map(|r| self.repo_index(r)).collect()),
-            AnnouncementMessage::Refs(r) => ("refs", self.repo_index(&r.rid), vec![]),
+        let (kind, repo, repos, nrefs) = match &ann.message {
+            AnnouncementMessage::Node(_) => ("node", 0, vec![], 0),
+            AnnouncementMessage::Inventory(inv) => ("inv", 0, inv.inventory.iter().map(|r| self.repo_index(r)).collect(), 0),
+            AnnouncementMessage::Refs(r) => ("refs", self.repo_index(&r.rid), vec![], r.refs.len()),
         };
         out.emit(&json!({"ev": "def", "aid": a, "node": self.node_index(&ann.node), "kind": kind, "repo": repo,
-            "ts": rel_of(ann.timestamp()), "sig": sig_ok.unwrap_or_else(|| ann.verify()), "repos": repos}));
+            "ts": rel_of(ann.timestamp()), "sig": sig_ok.unwrap_or_else(|| ann.verify()), "repos": repos, "nrefs": nrefs}));
         a
     }
 
@@ -301,10 +302,19 @@ impl World {
                 }
             }
         }
+        // routing table
+        let mut routing: Vec<(i64, i64)> = self
+            .alice
+            .database()
+            .routing()
+            .entries()
+            .map(|it| it.map(|(rid, nid)| (self.repo_index(&rid), self.node_index(&nid))).collect())
+            .unwrap_or_default();
+        routing.sort();
         let clock = self.alice.service.clock().as_millis() as i64 - T0 as i64;
         let vis: Vec<Value> = self.repos.iter().enumerate().map(|(i, r)| json!([i + 1, r.private, r.allow, r.delegates, r.stored])).collect();
         out.emit(&json!({"ev": "step", "op": op, "clock": clock, "sends": sends, "other": other, "disc": disc, "fetch": fetch,
-            "table": table, "known": known, "conn": conn, "subs": subs, "vis": vis, "panic": panic.unwrap_or_default(), "in": incoming}));
+            "table": table, "known": known, "conn": conn, "subs": subs, "routing": routing, "vis": vis, "panic": panic.unwrap_or_default(), "in": incoming}));
         disc.into_iter().filter(|d| *d > 0).map(|d| d as usize).collect()
     }
 
